@@ -79,7 +79,9 @@ mod imp {
 
     // ------------------------------------------------------------------ generated language
     #[derive(Clone, Debug, PartialEq)]
-    pub enum Rhs { Name(String), Closure(u64), NonCallable }
+    pub enum Rhs { Name(String), Closure(u64), NonCallable,
+                   /// a function literal without captures: a plain function object that only the assigned global refers to
+                   Lambda(u64) }
     #[derive(Clone, Debug, PartialEq)]
     pub enum Stmt {
         DefFn { name: String, tag: u64, body: Vec<String> },
@@ -106,6 +108,7 @@ mod imp {
                         Rhs::NonCallable => s.push_str(&format!("{}{} = 5\n", kw, name)),
                         Rhs::Closure(t) => s.push_str(&format!(
                             "if true {{ let mut cap = \"{}\"; {} = fn(x) {{ println(cap); return \".\" }} }}\n", tag_text(*t), name)),
+                        Rhs::Lambda(t) => s.push_str(&format!("{}{} = fn(x) {{ println(\"{}\"); return \".\" }}\n", kw, name, tag_text(*t))),
                     }
                 }
                 Stmt::Call { name } => s.push_str(&format!("println({}(-2.5))\n", name)),
@@ -152,7 +155,7 @@ mod imp {
                     Stmt::LetMut { name, rhs } | Stmt::Assign { name, rhs } => {
                         let v = match rhs {
                             Rhs::Name(n) => self.env.get(n).cloned().unwrap_or(SVal::Other),
-                            Rhs::Closure(t) => SVal::Clo(*t),
+                            Rhs::Closure(t) | Rhs::Lambda(t) => SVal::Clo(*t),
                             Rhs::NonCallable => SVal::Other,
                         };
                         self.env.insert(name.clone(), v);
@@ -535,7 +538,7 @@ mod imp {
                         let v = match rhs {
                             Rhs::Name(n) => self.table.get(&global_of(n)).copied().unwrap_or(MVal::Null),
                             Rhs::NonCallable => MVal::Other,
-                            Rhs::Closure(t) => {
+                            Rhs::Closure(t) | Rhs::Lambda(t) => {
                                 let v = if failed { MVal::Null } else { mval_of(vm, name) };
                                 let p = match v { MVal::Ptr(p) => p, _ => { unknown_ptr += 1; unknown_ptr } };
                                 let kind = if p >= 900_000 { "KClo" } else { kind_of(vm, p) };
@@ -682,6 +685,22 @@ mod imp {
                 g.leafs.extend(zs);
                 plan.push(Plan::Scripted(a)); plan.push(Plan::GcEvery); plan.push(Plan::Scripted(b)); plan.push(Plan::Scripted(c));
                 plan.push(Plan::RebindToReusedIndex); plan.push(Plan::Scripted(vec![call("m0")])); plan.push(Plan::GcDefault);
+            } else if flavour == 2 {
+                // a plain function object that only the global v0 refers to, a warmed body site; v0 rebound THROUGH A NON-OBJECT
+                // value (no object replaces an object), the function collected, new functions allocated and the one that got
+                // its heap index bound to v0: the site must run the new function (heap indices cannot tell the two apart)
+                // (slot ids restart in every unit and function bodies are numbered first: three functions with a call site
+                // come before m0, so that the few top-level sites of the later inputs do not overwrite the slot of m0's site)
+                g.leafs = vec!["l0".into()]; g.vs = vec!["v0".into()]; g.mids = vec!["m1".into(), "m2".into(), "m3".into(), "m0".into()];
+                let t = g.fresh_tag();
+                let a = vec![df(&mut g, "l0", vec![]), df(&mut g, "m1", vec!["l0"]), df(&mut g, "m2", vec!["l0"]), df(&mut g, "m3", vec!["l0"]),
+                             Stmt::LetMut { name: "v0".into(), rhs: Rhs::Lambda(t) }, df(&mut g, "m0", vec!["v0"]), call("m0"), call("m0")];
+                let b = vec![Stmt::Assign { name: "v0".into(), rhs: Rhs::NonCallable }];
+                let zs: Vec<String> = (0..6).map(|i| format!("z{}", i)).collect();
+                let c: Vec<Stmt> = zs.iter().map(|z| df(&mut g, z, vec![])).collect();
+                g.leafs.extend(zs);
+                plan.push(Plan::Scripted(a)); plan.push(Plan::GcEvery); plan.push(Plan::Scripted(b)); plan.push(Plan::Scripted(c));
+                plan.push(Plan::RebindToReusedIndex); plan.push(Plan::Scripted(vec![call("m0")])); plan.push(Plan::GcDefault);
             }
             let first_random = plan.is_empty();
             let ninputs = (if first_random { 2 } else { 1 }) + g.rng.below(if first_random { 6 } else { 4 }) as usize;
@@ -710,6 +729,7 @@ mod imp {
                 let st = status_of(&r.class);
                 ev.extend(sess.events_for_input(&vm, &stmts, st != 0, None, None));
                 if flavour == 1 && reuse_old.is_none() { reuse_old = sess.table.get("l0").copied(); }
+                if flavour == 2 && reuse_old.is_none() { reuse_old = sess.table.get("v0").copied(); }
                 q_inputs.push(format!("[{}]", ev.join("; ")));
                 obs.push(obs_term(st, &parse_output(&r.output)));
                 spec_obs.push(obs_term(ss, &stags));
